@@ -137,7 +137,11 @@ impl PathBearing {
     fn evaluate(&mut self) -> Result<&String> {
         self.tokens.skip_whitespace();
         while !self.tokens.at_end() {
+            #[cfg(feature = "verif-hooks")]
+            let verif_before = self.tokens.index;
             self.process_instruction()?;
+            #[cfg(feature = "verif-hooks")]
+            crate::verif::scanner_progress("bearing", verif_before, self.tokens.index);
         }
         Ok(&self.output)
     }
